@@ -300,7 +300,7 @@ func (g *gen) shrCtxs() []string {
 func (g *gen) shrProbe() string {
 	sni := "aabbccnnxys0"[g.r.Intn(12)]
 	al := "000htb"[g.r.Intn(6)]
-	if g.r.Chance(55) {
+	if g.r.Chance(75) {
 		return fmt.Sprintf("D%c%c", sni, al)
 	}
 	return fmt.Sprintf("H%c%c.%s", sni, al, g.r.PickS(peerKinds))
